@@ -59,6 +59,7 @@ type Sub struct {
 	UpdatesOnly bool       `json:"updates_only,omitempty"`
 	Delay       int        `json:"delay,omitempty"` // scheduling points to wait before subscribing
 	Polls       int        `json:"polls,omitempty"`
+	PollIdleNs  int64      `json:"poll_idle_ns,omitempty"` // wait this long after a sync before the next poll trigger
 	User        string     `json:"user,omitempty"`
 	// Flow-control fault: after reading StallAt messages the reader stops for
 	// StallNs of virtual time (-1: forever). SlowNs: pause before every read.
@@ -114,6 +115,12 @@ func genSub(rng *simrt.Rand, u *gen.Universe, prop string) Sub {
 	}
 	if s.Mode == "poll" {
 		s.Polls = rng.Intn(4)
+		switch rng.Pick(5, 3, 2) {
+		case 1:
+			s.PollIdleNs = int64(time.Duration(1+rng.Intn(30)) * time.Second)
+		case 2:
+			s.PollIdleNs = int64(time.Duration(1+rng.Intn(10)) * time.Minute) // longer than any send timeout
+		}
 	}
 	if s.Mode == "stream" {
 		s.UpdatesOnly = rng.Chance(0.2)
@@ -762,6 +769,9 @@ func (w *world) reader(x *common.Exec, ctx context.Context, sr *subRec) {
 		if m.GetSyncResponse() && sr.sub.Mode == "poll" {
 			if polls < sr.sub.Polls {
 				polls++
+				if sr.sub.PollIdleNs > 0 {
+					simrt.Sleep(time.Duration(sr.sub.PollIdleNs))
+				}
 				sr.triggers = append(sr.triggers, simrt.Stamp())
 				cs.SendMsg(&pb.SubscribeRequest{Request: &pb.SubscribeRequest_Poll{Poll: &pb.Poll{}}})
 			} else {
@@ -998,6 +1008,9 @@ func (w *world) judge(x *common.Exec, final map[string]map[string]string, finalT
 		if rpcDone && rpcCode == codes.NotFound {
 			continue // the target did not exist when the call arrived
 		}
+		if rpcDone && rpcCode == codes.PermissionDenied && sc.ACL != nil && sr.sub.Target != "*" && !w.allowed(sr, sr.sub.Target) {
+			continue // denied; whether the target existed at that instant is not known to the oracle
+		}
 		// ---- sync discipline
 		syncs := []int{}
 		for i, r := range sr.resps {
@@ -1007,6 +1020,13 @@ func (w *world) judge(x *common.Exec, final map[string]map[string]string, finalT
 		}
 		stalledForGood := sr.sub.StallNs < 0 && sr.stallFrom != 0
 		timedOut := sr.ended && code != codes.OK
+		// A subscriber that always reads promptly is never timed out: the send
+		// timeout only runs while a send is pending.
+		if timedOut && sr.sub.StallNs == 0 && sr.sub.SlowNs == 0 && strings.Contains(fmt.Sprint(sr.recvErr), "timed out") {
+			x.Oblige(1)
+			x.Violate("C08/prompt-reader-timed-out", "a subscriber that never stalled was terminated with %v\n%s  writers:\n%s", sr.recvErr, describe(sr), w.history())
+			return
+		}
 		switch sr.sub.Mode {
 		case "stream":
 			x.Oblige(1)
@@ -1257,8 +1277,13 @@ func (w *world) judgeOncePoll(x *common.Exec, sr *subRec, pats [][]string, syncs
 	if sr.ended && sr.recvErr != nil && sr.recvErr != io.EOF {
 		code = status.Code(sr.recvErr)
 	}
-	if stalled || code != codes.OK {
+	if stalled || code != codes.OK && (sr.sub.StallNs != 0 || sr.sub.SlowNs != 0) {
 		return // the flow-control fault decides (C08)
+	}
+	if code != codes.OK {
+		x.Oblige(1)
+		x.Violate("C05/terminated-with-error", "%s subscription of a prompt reader ended with %v after %d sync response(s) and %d poll trigger(s)\n%s", sr.sub.Mode, sr.recvErr, len(syncs), len(sr.triggers), describe(sr))
+		return
 	}
 	x.Oblige(2)
 	if len(syncs) != wantRounds {
